@@ -699,6 +699,8 @@ func (p *Printer) wordPart(wp, next WordPart) {
 			switch {
 			case len(name) > 1 && !ValidName(name): // ${10}
 			case ValidName(name + litCont): // ${var}cont
+			case litCont == "[": // zsh reads $var[1] as ${var[1]}
+			case name == "#" && next != nil: // zsh reads $#var, $#@ or $#"x" as a length
 			default:
 				x2 := *wp
 				x2.Short = true
